@@ -79,14 +79,14 @@ func histOp(g *Gen, lines []string, prev []Req) Req {
 		// repeat an earlier query, possibly through the other engine or with other client fields
 		r := Pick(g, prev)
 		if r.Kind != "close" {
-			if r.Kind != "url" && g.Chance(1, 2) {
+			if r.Kind != "url" && r.Kind != "web" && g.Chance(1, 2) {
 				if r.Kind == "dns" {
 					r.Kind = "host"
 				} else {
 					r.Kind = "dns"
 				}
 			}
-			if r.Kind != "url" && g.Chance(1, 2) {
+			if r.Kind != "url" && r.Kind != "web" && g.Chance(1, 2) {
 				r.ClientName = Pick(g, append([]string{""}, clientNames...))
 				r.Tags = nil
 				if g.Bool() {
@@ -109,6 +109,14 @@ func histOp(g *Gen, lines []string, prev []Req) Req {
 		r := engineURLReq(g, lines)
 		if r.Kind == "host" && g.Bool() {
 			r.Kind = "dns"
+		}
+		if r.Kind == "url" && isASCII(r.URL) && isASCII(r.Source) && g.Chance(1, 3) {
+			// the same request through the web engine (verdict with referrer, cosmetic option)
+			r.Kind = "web"
+			if r.Source == "" && g.Bool() {
+				r.Source = Pick(g, []string{"http://a.org/", "https://example.org/page", r.URL})
+			}
+			return r
 		}
 		if r.Kind == "url" && g.Chance(1, 3) {
 			// same host through another scheme: exercises the lazily compiled || prefix
@@ -177,6 +185,7 @@ type histEngines struct {
 	storage *filterlist.RuleStorage
 	ne      *urlfilter.NetworkEngine
 	de      *urlfilter.DNSEngine
+	eng     *urlfilter.Engine // the web engine (its own network engine over the same storage)
 	files   []*filterlist.FileRuleList
 	dir     string
 }
@@ -213,6 +222,7 @@ func newHistEngines(ls []listSpec, fileBacked bool) *histEngines {
 	}
 	h.storage = s
 	h.ne = urlfilter.NewNetworkEngine(s)
+	h.eng = urlfilter.NewEngine(s)
 	h.de = urlfilter.NewDNSEngine(s)
 	return h
 }
@@ -229,6 +239,7 @@ type histResult struct {
 	net []*rules.NetworkRule
 	dns *urlfilter.DNSResult
 	ser string
+	web *rules.MatchingResult
 }
 
 func serTexts(rs []*rules.NetworkRule) string {
@@ -241,6 +252,12 @@ func serTexts(rs []*rules.NetworkRule) string {
 
 // count is the number of rules the result reports (duplicates included).
 func (r *histResult) count() int {
+	if r.web != nil {
+		if r.web.GetBasicResult() != nil {
+			return 1
+		}
+		return 0
+	}
 	if r.dns != nil {
 		return len(r.dns.NetworkRules) + len(r.dns.HostRulesV4) + len(r.dns.HostRulesV6)
 	}
@@ -248,6 +265,15 @@ func (r *histResult) count() int {
 }
 
 func (r *histResult) serialise() string {
+	if r.web != nil {
+		t := func(x *rules.NetworkRule) string {
+			if x == nil {
+				return "nil"
+			}
+			return hx(x.RuleText)
+		}
+		return "W:" + t(r.web.BasicRule) + "/" + t(r.web.DocumentRule) + "/" + t(r.web.StealthRule) + "/" + fmt.Sprint(uint32(r.web.GetCosmeticOption()))
+	}
 	if r.dns != nil {
 		var v4, v6 []string
 		for _, h := range r.dns.HostRulesV4 {
@@ -268,6 +294,24 @@ func (r *histResult) serialise() string {
 // runOp executes one query and returns the canonical observation (the format of RunSession.v) and the result object.
 func (h *histEngines) runOp(rq Req) (string, *histResult, *rules.Request) {
 	switch rq.Kind {
+	case "web":
+		// Engine.MatchRequest: the verdict for a request and its referrer, and the cosmetic option derived from it
+		q := buildRequest(Req{Kind: "url", URL: rq.URL, Source: rq.Source, Type: rq.Type})
+		res := h.eng.MatchRequest(q)
+		b := res.GetBasicResult()
+		cls, text := "n", "nil"
+		if b != nil {
+			cls, text = "b", hx(b.RuleText)
+			if b.Whitelist {
+				cls = "a"
+			}
+			if b.IsOptionEnabled(rules.OptionImportant) {
+				cls = "i" + cls
+			}
+		}
+		r := &histResult{web: res}
+		r.ser = r.serialise()
+		return "W" + cls + "/" + text + "/" + fmt.Sprint(uint32(res.GetCosmeticOption())), r, q
 	case "dns":
 		dq := &urlfilter.DNSRequest{Hostname: rq.Hostname, ClientName: rq.ClientName, DNSType: rq.DNSType, SortedClientTags: rq.Tags}
 		q := buildRequest(Req{Kind: "host", Hostname: rq.Hostname, ClientName: rq.ClientName, ClientIP: rq.ClientIP, Tags: rq.Tags, DNSType: rq.DNSType})
@@ -305,6 +349,11 @@ func (h *histEngines) runOp(rq Req) (string, *histResult, *rules.Request) {
 
 // derived evaluates the derived results of an OLD result object (they must not alter anything).
 func derived(r *histResult) {
+	if r.web != nil {
+		_ = r.web.GetBasicResult()
+		_ = r.web.GetCosmeticOption()
+		return
+	}
 	if r.dns != nil {
 		_ = r.dns.DNSRewritesAll()
 		_ = r.dns.DNSRewrites()
@@ -757,7 +806,15 @@ func init() {
 					// every returned network rule truly matches and is part of the fault-free result
 					var got []*rules.NetworkRule
 					var want []*rules.NetworkRule
-					if r.dns != nil {
+					if r.web != nil {
+						got, want = nil, nil
+						if b := r.web.GetBasicResult(); b != nil && !b.Match(q) && flags == "" {
+							// the referrer-level rules match the referrer, not the request: only the basic rule of the request is checked
+							if r.web.BasicRule == b {
+								flags = fmt.Sprintf("!LIE:op=%d:rule=%s", k, hx(b.RuleText))
+							}
+						}
+					} else if r.dns != nil {
 						got, want = r.dns.NetworkRules, or.dns.NetworkRules
 						for _, hr := range append(append([]*rules.HostRule{}, r.dns.HostRulesV4...), r.dns.HostRulesV6...) {
 							if !hr.Match(rq.Hostname) && flags == "" {
